@@ -222,6 +222,7 @@ def s_case(draw, ops=None):
     c["bary"] = draw(objs.bary_picks(nb, nb))
     c["bary2"] = draw(objs.bary_picks(nb, nb))  # a second group of the SAME size (same-shape arrays through one warp object)
     c["batch"] = draw(st.sampled_from([None, None, 1, 7, 64, 257]))
+    c["as_alignment"] = draw(st.sampled_from([False, False, True]))
     return c
 
 
@@ -680,6 +681,16 @@ def c_case(c, ctx):
         h = np.eye(d + 1)
         h[:d, :d] = L
         h[:d, d] = bvec
+        if op == "warp_affine" and c.get("as_alignment") and d == 2:
+            # the same kind of map handed over as an AlignmentAffine object fitted to inexact correspondences (more than
+            # d+1 noisy point pairs): the warp is the fitted matrix, its inverse the exact inverse of that matrix
+            rs_ = np.random.RandomState(c["seed"] + 7)
+            sp = np.array([[0.0, 0.0], [0.0, tshape[1] - 1.0], [tshape[0] - 1.0, 0.0], [tshape[0] - 1.0, tshape[1] - 1.0], list(tc)])
+            tp = sp.dot(L.T) + bvec + (np.round(rs_.rand(5, 2) * 64) / 64 - 0.5) * 0.6
+            al = mt.AlignmentAffine(PointCloud(sp), PointCloud(tp))
+            L = np.array(al.h_matrix[:d, :d], dtype=float)
+            bvec = np.array(al.h_matrix[:d, d], dtype=float)
+            ctx.event("warp given as AlignmentAffine (inexact fit)")
         if op == "warp_chain":
             # a TransformChain has no pseudoinverse, so it can only warp an image without landmarks
             for nm in list(src.landmarks.keys()):
@@ -690,6 +701,8 @@ def c_case(c, ctx):
             half[:d, d] = -tc
             rest = h.dot(np.linalg.inv(half))
             t = mt.TransformChain([mt.Translation(-tc), mt.Affine(rest)])
+        elif op == "warp_affine" and c.get("as_alignment") and d == 2:
+            t = al
         else:
             t = mt.Affine(h)
         kw = dict(transform=t, warp_landmarks=True, mode=c["mode"], batch_size=c.get("batch"))
